@@ -390,6 +390,11 @@ def thread_programs(rng, store):
             ops.insert(rng.randrange(len(ops) + 1), {'op': 'import_missing_nodeid', 'g': f'F{t}', 'desc': small(rng, 3, prefix=f't{t}f'),
                                                      'drop': rng.randrange(1, 3)})
         progs.append(ops)
+    if rng.random() < 0.2:
+        # one thread empties the whole store while the others work (what is left afterwards depends on the order; the store's
+        # bookkeeping must not)
+        p = rng.choice(progs)
+        p.insert(rng.randrange(len(p) + 1), {'op': 'delete_all'})
     return progs
 
 
@@ -414,6 +419,8 @@ def expected_final(progs, base):
             dep.add(g)
     for c in clones:
         dep.add(c['to'])    # snapshot of G0 at some moment
+    if any(op['op'] == 'delete_all' for p in progs for op in p):
+        dep |= set(exp)     # whatever was there before the store was emptied is gone, whatever came after stays
     return exp, dep
 
 
@@ -502,6 +509,28 @@ def judge_schedule(ctx, env, store, progs, s, finished, base, blank_ids, w):
             ctx.violation(f'C20/{store}-internal-id-handed-out-twice', 'no internal identifier is handed out twice', dict(w, id=i))
             return False
         by_graph[key].add(i)
+    # identifiers handed out AFTER the threads are done must be new as well: every graph gets a few more nodes, one caller at a time,
+    # and keeps all it had
+    ctx.count('sched:later-allocations-checked')
+    mon.problems.clear()
+    for g in sorted(snap):
+        had = set(snap[g]['nodes'])
+        new = [f'epilogue-{g}-{j}' for j in range(3)]
+        try:
+            for nid in new:
+                imp.storage.add_blank_node_to_graph(g, Class='NetworkNode', NodeID=nid)
+        except Exception as e:
+            ctx.violation(f'C20/{store}-later-allocation-raises', f'creating a node after the threads finished raised {type(e).__name__}: {e}',
+                          dict(w, graph=g))
+            return False
+        now = set((canon.graph_snapshot(imp, g) or {'nodes': {}})['nodes'])
+        if now != had | set(new):
+            ctx.violation(f'C20/{store}-later-allocation-overwrites-a-node', 'no internal identifier is handed out twice: nodes created after '
+                          'the threads finished take the place of nodes the graph already had',
+                          dict(w, graph=g, missing=sorted((had | set(new)) - now)))
+            return False
+    if report_lock_problems(ctx, env, store, dict(w, phase='later allocations')):
+        return False
     return True
 
 
@@ -701,7 +730,64 @@ def explore_first_use(ctx, env):
                     return
 
 
+# ------------------------------------------------------------------ real threads, no scheduler
+def stress_real_threads(ctx):
+    """Three OS threads create nodes at the same time (tiny switch interval, the store's own lock, no harness in between): into
+    graphs of their own and into one graph, on both flavours.  Every call must succeed and every node must be there."""
+    import sys
+    import threading
+    imps = rawgraph.importers()
+    K = ctx.pick(250, 2000)
+    old = sys.getswitchinterval()
+    for store, same in (('shared', False), ('shared', True), ('disjoint', False), ('disjoint', True)):
+        imp, cls = imps[store]
+        imp.delete_all_graphs()
+        errors = []
+        gid = (lambda t: 'S') if same else (lambda t: f'S{t}')
+
+        def body(t):
+            g = cls(graph_id=gid(t), importer=type(imp)())
+            for i in range(K):
+                try:
+                    g.add_node(node_id=f's{t}-{i}', label='NetworkNode', props={'Name': f's{t}-{i}'})
+                except Exception as e:
+                    errors.append((t, i, type(e).__name__, str(e)[:80]))
+        ths = [threading.Thread(target=body, args=(t,), daemon=True) for t in range(3)]
+        sys.setswitchinterval(1e-6)
+        try:
+            for th in ths:
+                th.start()
+            for th in ths:
+                th.join(timeout=120)
+        finally:
+            sys.setswitchinterval(old)
+        if any(th.is_alive() for th in ths):
+            ctx.mark_inconclusive('real-thread stress did not finish within the watchdog')
+            return
+        ctx.count('stress:runs')
+        ctx.count('stress:create-node-calls', 3 * K)
+        ctx.seen(['stress', store, same], True)
+        w = {'mode': 'real-threads', 'store': store, 'one_graph_for_all': same, 'threads': 3, 'calls_per_thread': K}
+        if errors:
+            kinds = sorted({e[2] for e in errors})
+            ctx.violation(f'C20/{store}-creating-nodes-concurrently-fails:{kinds[0]}', 'several threads create nodes concurrently: no call fails '
+                          'and no node is lost', dict(w, failed_calls=len(errors), first=errors[:3]))
+            continue
+        snap = canon.store_snapshot(imp)[0]
+        for t in range(3):
+            want = {f's{t}-{i}' for i in range(K)}
+            have = set(snap.get(gid(t), {'nodes': {}})['nodes'])
+            if not want <= have:
+                ctx.violation(f'C20/{store}-lost-node-under-real-threads', 'several threads create nodes concurrently: no node is lost',
+                              dict(w, thread=t, missing=sorted(want - have)[:5], missing_count=len(want - have)))
+                break
+    for imp, _ in imps.values():
+        imp.delete_all_graphs()
+
+
 def _run_workload(ctx):
+    if ctx.shard == 0:
+        stress_real_threads(ctx)
     env = Env(ctx)
     try:
         # patch: contention counter through the scheduler
